@@ -30,6 +30,7 @@ const W_LATE_PONG: u64 = 64;
 const W_HUNG: u64 = 128;
 const W_PEER_PINGS: u64 = 256;
 const W_LATE_POLL: u64 = 512;
+const W_IDLE_STALL: u64 = 1024;
 
 const TOL: Duration = Duration::from_millis(3);
 
@@ -71,6 +72,10 @@ struct Scn {
     half_tail: bool,
     /// the two option setters are called in the other order (timeout first, then interval)
     timeout_first: bool,
+    /// the whole process is frozen once for this long (ms; 0 = never) at a moment when it is IDLE and no Ping is
+    /// outstanding (every Ping so far answered and the answer processed; nothing on the wire): a stopped or suspended
+    /// process, a paused VM. Several ticks of the interval are missed; a peer that answers at once is still alive
+    idle_stall_ms: u64,
 }
 
 fn od(ms: u64) -> OptionalDuration {
@@ -158,6 +163,7 @@ async fn run_async(sc: &Scn, render: bool) -> RunOutput {
     let mut log: Vec<String> = Vec::new();
     let mut hit_horizon = false;
     let mut late_used = false;
+    let mut idle_stall_used = false;
     let mut next_peer_ping = t0 + i / 2;
     loop {
         if w.sim.steps > 20_000 {
@@ -212,6 +218,16 @@ async fn run_async(sc: &Scn, render: bool) -> RunOutput {
             }
             if w.sim.all_done() {
                 break;
+            }
+            // environment: the process is frozen here (idle, no Ping outstanding, at least one round answered)
+            if sc.idle_stall_ms > 0 && !idle_stall_used && ended_at.is_none() && pong_due.is_empty() && !pongs_rx.is_empty() && pongs_rx.len() == pings.len() && choose(&[Cost::Env, Cost::Env]) == 1 {
+                idle_stall_used = true;
+                wit |= W_IDLE_STALL;
+                if render {
+                    log.push(format!("FROZEN({}ms)@{:?}", sc.idle_stall_ms, now - t0));
+                }
+                tokio::time::advance(Duration::from_millis(sc.idle_stall_ms)).await;
+                continue;
             }
             let mut next = pong_due.iter().map(|(t, _)| *t).min().map_or(horizon, |t| t.min(horizon));
             if sc.peer_pings && enabled && hung_at.is_none() {
@@ -278,7 +294,15 @@ async fn run_async(sc: &Scn, render: bool) -> RunOutput {
         let alive_until = ended_at.unwrap_or(end_now);
         // (a stall of the connection task that the harness itself injected shifts the pings; the schedule is judged only
         // in executions without one)
-        let stalled = sc.jitter && sc.late_ms > 2 && late_used;
+        let stalled = (sc.jitter && sc.late_ms > 2 && late_used) || idle_stall_used;
+        // one Ping per interval also after an outage: the ticks that were missed are not made up for in a burst
+        if idle_stall_used {
+            for k in 1..pings.len() {
+                if pings[k] == pings[k - 1] {
+                    push_viol(&mut viol, "ping.burst-after-outage", format!("Pings #{} and #{k} both left at {:?} (interval {i:?}) after the process had been frozen for {} ms", k - 1, pings[k], sc.idle_stall_ms));
+                }
+            }
+        }
         if let (Some(first), false) = (pings.first(), stalled) {
             if *first > i + TOL {
                 push_viol(&mut viol, "ping.schedule", format!("the first Ping left at {first:?}, later than one interval {i:?} after start-up"));
@@ -300,7 +324,7 @@ async fn run_async(sc: &Scn, render: bool) -> RunOutput {
         let lp = if ended_at.is_some() { pongs_rx.iter().take(consumed).map(|(t, _)| *t).last().unwrap_or(Duration::ZERO) } else { pongs_rx.last().map_or(Duration::ZERO, |(t, _)| *t) };
         let _ = ended_step;
         // (a stall injected by the harness delays detection by as much)
-        let slack = if stalled { Duration::from_millis(sc.late_ms) } else { Duration::ZERO };
+        let slack = if idle_stall_used { Duration::from_millis(sc.idle_stall_ms) } else if stalled { Duration::from_millis(sc.late_ms) } else { Duration::ZERO };
         match (ended_at, t_eff) {
             (Some(e), Some(te)) => {
                 match &res {
@@ -396,7 +420,7 @@ pub fn run(args: &Args) -> Report {
                 if interval == 0 && (code != 0 || prompt_tail) {
                     continue;
                 }
-                let sc = Scn { interval, timeout, rounds: hist.clone(), prompt_tail, hung_tail: false, peer_pings: false, jitter: false, late_ms: 2, half_tail: false, timeout_first: false };
+                let sc = Scn { interval, timeout, rounds: hist.clone(), prompt_tail, hung_tail: false, peer_pings: false, jitter: false, late_ms: 2, half_tail: false, timeout_first: false, idle_stall_ms: 0 };
                 let label = format!("I={interval}ms T={}ms history={hist:?} then {}", if timeout == 0 { "NONE".to_string() } else { timeout.to_string() }, if prompt_tail { "prompt" } else { "silent" });
                 cases.push(Case { try_unbounded: false, max_k: u32::MAX, label, exec: Box::new(move |r| exec(&sc, r)) });
             }
@@ -412,7 +436,7 @@ pub fn run(args: &Args) -> Report {
             let total = 2usize.pow(len as u32);
             for code in 0..total {
                 let hist: Vec<Delay> = (0..len).map(|r| if (code >> r) & 1 == 0 { Delay::Zero } else { Delay::Half }).collect();
-                let sc = Scn { interval, timeout, rounds: hist.clone(), prompt_tail: false, hung_tail: true, peer_pings: false, jitter: false, late_ms: 2, half_tail: false, timeout_first: false };
+                let sc = Scn { interval, timeout, rounds: hist.clone(), prompt_tail: false, hung_tail: true, peer_pings: false, jitter: false, late_ms: 2, half_tail: false, timeout_first: false, idle_stall_ms: 0 };
                 let label = format!("I={interval}ms T={}ms history={hist:?} then the peer hangs (reads nothing), send side congested", if timeout == 0 { "NONE".to_string() } else { timeout.to_string() });
                 cases.push(Case { try_unbounded: false, max_k: u32::MAX, label, exec: Box::new(move |r| exec(&sc, r)) });
             }
@@ -424,7 +448,7 @@ pub fn run(args: &Args) -> Report {
             continue;
         }
         for (hist, prompt_tail) in [(vec![], false), (vec![Delay::Zero, Delay::Zero], false), (vec![Delay::Zero, Delay::Half, Delay::Zero], true)] {
-            let sc = Scn { interval, timeout, rounds: hist.clone(), prompt_tail, hung_tail: false, peer_pings: false, jitter: false, late_ms: 2, half_tail: false, timeout_first: true };
+            let sc = Scn { interval, timeout, rounds: hist.clone(), prompt_tail, hung_tail: false, peer_pings: false, jitter: false, late_ms: 2, half_tail: false, timeout_first: true, idle_stall_ms: 0 };
             let label = format!("I={interval}ms T={timeout}ms (timeout set BEFORE the interval) history={hist:?} then {}", if prompt_tail { "prompt" } else { "silent" });
             cases.push(Case { try_unbounded: false, max_k: u32::MAX, label, exec: Box::new(move |r| exec(&sc, r)) });
         }
@@ -434,8 +458,18 @@ pub fn run(args: &Args) -> Report {
         if interval == 0 {
             continue;
         }
-        let sc = Scn { interval, timeout, rounds: vec![Delay::Zero; 3], prompt_tail: true, hung_tail: false, peer_pings: false, jitter: true, late_ms: 2, half_tail: false, timeout_first: false };
+        let sc = Scn { interval, timeout, rounds: vec![Delay::Zero; 3], prompt_tail: true, hung_tail: false, peer_pings: false, jitter: true, late_ms: 2, half_tail: false, timeout_first: false, idle_stall_ms: 0 };
         let label = format!("I={interval}ms T={}ms every Ping answered at once; one poll of the connection task comes 2 ms late", if timeout == 0 { "NONE".to_string() } else { timeout.to_string() });
+        cases.push(Case { try_unbounded: false, max_k: 0, label, exec: Box::new(move |r| exec(&sc, r)) });
+    }
+    // the process is frozen for 3.2 intervals while it is idle and no Ping is outstanding (any one such moment); the peer
+    // answers every Ping at once, before and after
+    for &(interval, timeout) in &cfgs2 {
+        if interval == 0 {
+            continue;
+        }
+        let sc = Scn { interval, timeout, rounds: vec![Delay::Zero; 3], prompt_tail: true, hung_tail: false, peer_pings: false, jitter: false, late_ms: 2, half_tail: false, timeout_first: false, idle_stall_ms: interval * 16 / 5 };
+        let label = format!("I={interval}ms T={}ms every Ping answered at once; the idle process is frozen once for {} ms with no Ping outstanding", if timeout == 0 { "NONE".to_string() } else { timeout.to_string() }, sc.idle_stall_ms);
         cases.push(Case { try_unbounded: false, max_k: 0, label, exec: Box::new(move |r| exec(&sc, r)) });
     }
     // (Stalls of the thread that runs the connection task for a sizeable part of an interval -- `late_ms` well above timer
@@ -454,7 +488,7 @@ pub fn run(args: &Args) -> Report {
             for code in 0..total {
                 let hist: Vec<Delay> = (0..len).map(|r| if (code >> r) & 1 == 0 { Delay::Zero } else { Delay::Half }).collect();
                 for prompt_tail in [false, true] {
-                    let sc = Scn { interval, timeout, rounds: hist.clone(), prompt_tail, hung_tail: false, peer_pings: true, jitter: false, late_ms: 2, half_tail: false, timeout_first: false };
+                    let sc = Scn { interval, timeout, rounds: hist.clone(), prompt_tail, hung_tail: false, peer_pings: true, jitter: false, late_ms: 2, half_tail: false, timeout_first: false, idle_stall_ms: 0 };
                     let label = format!("I={interval}ms T={}ms history={hist:?} then {}; the peer sends its own Ping every interval throughout", if timeout == 0 { "NONE".to_string() } else { timeout.to_string() }, if prompt_tail { "prompt" } else { "silent" });
                     cases.push(Case { try_unbounded: false, max_k: u32::MAX, label, exec: Box::new(move |r| exec(&sc, r)) });
                 }
@@ -470,9 +504,9 @@ pub fn run(args: &Args) -> Report {
         fault: 0,
         total_wall: Duration::from_secs(if thorough { 1500 } else { 100 }),
         max_execs_per_case: 5_000,
-        required_witnesses: W_TIMEOUT | W_SURVIVED | W_PING_SEEN | W_DISABLED | W_CLAMPED | W_RESOLVED_AFTER_TIMEOUT | W_LATE_PONG | W_HUNG | W_PEER_PINGS | W_LATE_POLL,
+        required_witnesses: W_TIMEOUT | W_SURVIVED | W_PING_SEEN | W_DISABLED | W_CLAMPED | W_RESOLVED_AFTER_TIMEOUT | W_LATE_PONG | W_HUNG | W_PEER_PINGS | W_LATE_POLL | W_IDLE_STALL,
         adaptive: thorough,
-        witness_names: &[("timeout_detected", W_TIMEOUT), ("survived_to_horizon", W_SURVIVED), ("ping_seen", W_PING_SEEN), ("keepalive_disabled_case", W_DISABLED), ("timeout_clamped_to_interval", W_CLAMPED), ("operations_resolved_after_timeout", W_RESOLVED_AFTER_TIMEOUT), ("late_pong_tolerated", W_LATE_PONG), ("peer_hung_with_congested_send_side", W_HUNG), ("peer_sends_its_own_pings", W_PEER_PINGS), ("connection_task_polled_late", W_LATE_POLL)],
+        witness_names: &[("timeout_detected", W_TIMEOUT), ("survived_to_horizon", W_SURVIVED), ("ping_seen", W_PING_SEEN), ("keepalive_disabled_case", W_DISABLED), ("timeout_clamped_to_interval", W_CLAMPED), ("operations_resolved_after_timeout", W_RESOLVED_AFTER_TIMEOUT), ("late_pong_tolerated", W_LATE_PONG), ("peer_hung_with_congested_send_side", W_HUNG), ("peer_sends_its_own_pings", W_PEER_PINGS), ("connection_task_polled_late", W_LATE_POLL), ("idle_process_frozen_for_several_intervals", W_IDLE_STALL)],
     };
     rep.rule = "psim in virtual time: one real endpoint whose Options come from the public builders, its real task future polled by hand inside a paused-clock tokio runtime (timers fire by auto-advance, TimestampProvider reads the same clock), a raw peer answering Ping k after a scripted delay; EVERY history of R delays over {0, T/2, T, T+10 ms, never} followed by a silent or prompt tail (plus: after every history of <= 2 (thorough: R) in-time answers the peer HANGS, i.e. stops reading as well, while the application sends a burst into a transport of capacity 2, so the send side is congested when the timeout is due; plus: the peer sends Pings of its own every interval throughout, also while it does not answer ours; plus: a peer answering at once while any ONE poll of the connection task comes 2 ms late (a timer firing late), which must not look like a dead peer even when T = I), for every (I,T) pair incl. T<I (clamped), T=I, T=NONE and I=NONE; timer-vs-pong races at equal instants are scheduling choices (<= k deviations). Oracle: Ping k leaves at k*I; disabled => no Ping, no end; the task ends only with KeepaliveTimeout, at a time t with last_pong+T_eff <= t <= last_pong+T_eff+I; never when every Ping was answered within T; no silent gap > T_eff+I survives; after the timeout the pending accept/get_datagram resolve although the transport stays silent".into();
     rep.assumptions = vec!["tolerance 3 ms for tokio's millisecond timer rounding".into(), "both orders of the two builder calls are exercised (the reversed order for every (I,T) pair with three histories)".into()];
